@@ -41,10 +41,24 @@ func (p *P) Runs(tier string) int {
 	}
 	return 12000
 }
+
+// ColdRuns: number of cold-start runs of a batch – each in a fresh process
+// that has NOT warmed up lazily initialised library state, the concurrent phase
+// first, the sequential reference afterwards. This is the only way to see a
+// race in first-use initialisation (sync.Once tables, lazily built maps).
+func (p *P) ColdRuns(tier string) int {
+	if tier == "thorough" {
+		return 4000
+	}
+	return 160
+}
+
 func (p *P) Init(env *core.Env) error {
 	p.env = env
 	p.race = racelog.Open()
-	ops.WarmUp()
+	if !env.Cold {
+		ops.WarmUp()
+	}
 	return nil
 }
 func (p *P) Assumptions() []string {
@@ -119,62 +133,84 @@ func (p *P) Run(src *tape.Source, trace bool) *core.Result {
 		}
 	}
 
-	// ---- sequential oracle: each call alone on pristine state, twice
+	cold := p.env.Cold
 	ctl := &pool.Ctl{S: src, Mode: pool.AlwaysMiss}
 	ctl.Install()
-	metrics.Enable()
-	metrics.Reset()
-	monitor.Enable()
-	monitor.Reset()
 	est := 0
 	excluded := map[*cell]bool{}
-	for t := range work {
-		for _, c := range work[t] {
-			simhook.PurgeAll()
-			op := c.op
-			est += sched.CountYields(func() { c.seq, _ = op.Exec(false) })
-		}
-	}
-	seqStats := metrics.GetStats()
-	seqMon := monitor.GetMetrics()
-	ops.ResetGlobals()
-	for t := range work {
-		for _, c := range work[t] {
-			simhook.PurgeAll()
-			again, _ := c.op.Exec(false)
-			if again != c.seq {
-				excluded[c] = true
-				r.Probes["sequentially-nondeterministic:"+c.op.Kind.String()]++
+	var seqStats, concStats metrics.Stats
+	var seqMon, concMon monitor.MetricsSnapshot
+	var s *sched.Sched
+	// ---- sequential oracle: each call alone on pristine state, twice
+	sequential := func() {
+		ctl.Mode = pool.AlwaysMiss
+		metrics.Enable()
+		metrics.Reset()
+		monitor.Enable()
+		monitor.Reset()
+		for t := range work {
+			for _, c := range work[t] {
+				simhook.PurgeAll()
+				op := c.op
+				est += sched.CountYields(func() { c.seq, _ = op.Exec(false) })
 			}
 		}
-	}
-
-	// ---- concurrent execution under the scheduler
-	simhook.PurgeAll()
-	ops.ResetGlobals()
-	metrics.Enable()
-	metrics.Reset()
-	monitor.Enable()
-	monitor.Reset()
-	ctl.Mode = mode
-	s := sched.New(src, pol, est)
-	s.WantTrace = trace
-	for t := range work {
-		cells := work[t]
-		s.Go(func() {
-			for _, c := range cells {
-				if c.purge {
-					ctl.PurgeAll()
+		seqStats = metrics.GetStats()
+		seqMon = monitor.GetMetrics()
+		ops.ResetGlobals()
+		for t := range work {
+			for _, c := range work[t] {
+				simhook.PurgeAll()
+				again, _ := c.op.Exec(false)
+				if again != c.seq {
+					excluded[c] = true
+					r.Probes["sequentially-nondeterministic:"+c.op.Kind.String()]++
 				}
-				c.conc, _ = c.op.Exec(false)
-				c.done = true
 			}
-		})
+		}
 	}
-	s.Run()
+	// ---- concurrent execution under the scheduler
+	concurrent := func() {
+		simhook.PurgeAll()
+		ops.ResetGlobals()
+		metrics.Enable()
+		metrics.Reset()
+		monitor.Enable()
+		monitor.Reset()
+		ctl.Mode = mode
+		if est == 0 {
+			est = 400 * nTasks // cold run: no sequential execution yet to measure
+		}
+		s = sched.New(src, pol, est)
+		s.WantTrace = trace
+		for t := range work {
+			cells := work[t]
+			s.Go(func() {
+				for _, c := range cells {
+					if c.purge {
+						ctl.PurgeAll()
+					}
+					c.conc, _ = c.op.Exec(false)
+					c.done = true
+				}
+			})
+		}
+		s.Run()
+		concStats = metrics.GetStats()
+		concMon = monitor.GetMetrics()
+		metrics.Disable()
+		monitor.Disable()
+	}
+	if cold {
+		// first use of everything happens concurrently; the reference comes afterwards
+		concurrent()
+		ops.ResetGlobals()
+		sequential()
+	} else {
+		sequential()
+		concurrent()
+	}
 	pool.Uninstall()
-	concStats := metrics.GetStats()
-	concMon := monitor.GetMetrics()
 	metrics.Disable()
 	monitor.Disable()
 
